@@ -70,7 +70,28 @@ def cclose(got_re, got_im, want, scale, rel):
 _HELD = {}
 
 
+class _WrongShape(Exception):
+    pass
+
+
+def shaped(chk, key, det, t, want):
+    """the documented shape of a result (call forms rely on the published defaults: rho / pi / gamma expand to the full
+    matrix unless told otherwise); anything else is reported and ends the replay of this point"""
+    chk.evaluations += 1
+    if not torch.is_tensor(t) or tuple(t.shape) != tuple(want):
+        chk.violation(key + ":shape", dict(det, expected=list(want), got=list(t.shape) if torch.is_tensor(t) else repr(type(t))))
+        raise _WrongShape(key)
+    return t
+
+
 def replay(chk, e, n, key="lattice"):
+    try:
+        _replay(chk, e, n, key)
+    except _WrongShape:
+        pass
+
+
+def _replay(chk, e, n, key="lattice"):
     pt = e["pt"]
     B, nv, nh, na = pt["B"], pt["nv"], pt["nh"], pt["na"]
     N = 2 ** nv
@@ -84,7 +105,7 @@ def replay(chk, e, n, key="lattice"):
         chk.extra["unrepresentable"] = chk.extra.get("unrepresentable", 0) + 1
         return
     Z = sum(diag)
-    full = st.rho(sp, sp)                                  # (2, N, N)
+    full = shaped(chk, key + ":rho[full]", det, st.rho(sp, sp), (2, N, N))
     # a result belongs to the caller: the matrix obtained for the PREVIOUS parameter setting of the same shape, still held,
     # keeps its values when another one is computed (two models compared side by side, a matrix gathered element by element)
     held = _HELD.get(("full", N))
@@ -106,12 +127,12 @@ def replay(chk, e, n, key="lattice"):
             break
     # rho(space) with vp = None is rho(space, space)
     chk.evaluations += 1
-    if not torch.equal(st.rho(sp), full):
+    if not torch.equal(shaped(chk, key + ":rho[vp=None]", det, st.rho(sp), (2, N, N)), full):
         chk.violation(key + ":rho[vp=None]", det)
     # paired form: element i of the result is rho(v_i, vp_i)
     idx_i = [i for i in range(N) for _ in range(N)]
     idx_j = [j for _ in range(N) for j in range(N)]
-    pair = st.rho(sp[idx_i], sp[idx_j], expand=False)
+    pair = shaped(chk, key + ":rho[expand=False]", det, st.rho(sp[idx_i], sp[idx_j], expand=False), (2, N * N))
     for form, cur in (("pair", pair),):
         held = _HELD.get((form, N))
         if held is not None and not torch.equal(held[0], held[1]):
@@ -136,8 +157,8 @@ def replay(chk, e, n, key="lattice"):
                                       mpmath.sqrt(diag[i] * diag[j]), 1e-7 if cancels(e["G"][i][j]) else rel):
         chk.violation(key + ":rho[1-D]", dict(det, i=i, j=j, got=one.tolist()))
     # diagonal = reported probability = what sampling targets (aux-traced marginal)
-    prob = st.probability(sp)
-    dform = st.rho(sp, expand=False)
+    prob = shaped(chk, key + ":probability", det, st.probability(sp), (N,))
+    dform = shaped(chk, key + ":rho[diag-form]", det, st.rho(sp, expand=False), (2, N))
     for i in range(N):
         chk.evaluations += 1
         if not terms.close(prob[i].item(), diag[i], rel=rel):
@@ -153,7 +174,7 @@ def replay(chk, e, n, key="lattice"):
     r = random.Random(n)
     li = [r.randrange(N) for _ in range(N + 1 + n % (N + 3) if n % 8 else bigbatch.size(n // 8))]
     lj = [r.randrange(N) for _ in range(1 + n % (2 * N + 1))]
-    lprob = st.probability(sp[li])
+    lprob = shaped(chk, key + ":probability[long-batch]", det, st.probability(sp[li]), (len(li),))
     lrho = st.rho(sp[li], sp[lj])
     for t in (0, len(li) - 1, r.randrange(len(li))):
         chk.evaluations += 2
@@ -175,9 +196,10 @@ def replay(chk, e, n, key="lattice"):
     if not terms.close(tr, Z, rel=rel):
         chk.violation(key + ":trace", dict(det, got=tr, expected=mpmath.nstr(Z, 17)))
     # factors (so that a rejection names the faulty one): exp(pi) = G, gamma+ = ln(A A')/2, gamma- = phase part
-    pi_ = st.pi(sp, sp)
-    gp = st.rbm_am.gamma(sp, sp, eta=+1)
-    gm = st.rbm_ph.gamma(sp, sp, eta=-1)
+    pi_ = shaped(chk, key + ":pi", det, st.pi(sp, sp), (2, N, N))
+    # (eta left out is +1: the amplitude network's call form)
+    gp = shaped(chk, key + ":gamma+", det, st.rbm_am.gamma(sp, sp) if n % 2 else st.rbm_am.gamma(sp, sp, eta=+1), (N, N))
+    gm = shaped(chk, key + ":gamma-", det, st.rbm_ph.gamma(sp, sp, eta=-1), (N, N))
     for i in range(N):
         for j in range(N):
             gr, gi = gfac(B, e["G"][i][j]["e"], e["G"][i][j]["f"])
